@@ -1,7 +1,9 @@
 #!/usr/bin/env bash
 # tools/verify_seed.sh <dir with patch.diff + demo.rs>  : confirm a seeded change in a scratch worktree
-# (baseline tests pass with it; demo fails with it and passes without it). Uses /scratch/wt.
-d="$1"; WT=/scratch/wt; F="use-p256,use-xchacha20poly1305,ring-resolver,verif-hooks"
+# (baseline tests pass with it; demo fails with it and passes without it). Uses a scratch worktree of
+# /repo at /scratch/wt (created on demand; remove it afterwards with
+# `git -C /repo worktree remove --force /scratch/wt`).
+d="$1"; WT="${VERIFY_SEED_WT:-/scratch/wt}"; mkdir -p "$(dirname "$WT")"; [ -d "$WT/.git" ] || [ -f "$WT/.git" ] || git -C /repo worktree add --detach "$WT" HEAD >/dev/null 2>&1; F="use-p256,use-xchacha20poly1305,ring-resolver,verif-hooks"
 git -C $WT checkout -q -- . ; rm -f $WT/tests/demo.rs
 cp "$d/demo.rs" $WT/tests/demo.rs
 clean=$(cd $WT && cargo test --offline --features $F --test demo 2>&1 | grep -E "^test result" | tr '\n' ' ')
